@@ -102,6 +102,22 @@ static JD *mk(void) {
   return d;
 }
 #define BOOLEAN_TYPE 0x06 /* VariantType::Boolean */
+/* Configurations nan / inf (ARDUINOJSON_ENABLE_NAN / ARDUINOJSON_ENABLE_INFINITY): C10 admits NaN resp. Infinity "only when
+ * the corresponding option is enabled"; a value that starts with the first letter of one of the option's words (or with a sign)
+ * must therefore reach the number production, which decides (jsonscan parse/skipNumericValue [nan, inf], pnloop option_*),
+ * while t / f / n keep selecting the keywords true / false / null in every configuration (so the lower-case word `nan` is
+ * not a document-level spelling: it is dispatched to the keyword null and refused there).  The dispatch oracle `want` is the
+ * same text in every configuration; what is option-specific are the cover goals and the canary below. */
+#if defined(CFG_nan)
+#define OPTION_WORD_COVERS(num) COVER(g_called == (num) && c == 'N'); COVER(g_called == (num) && c == '-'); COVER(g_called == C_KEYWORD && c == 'n')
+#define CANARY_DISPATCH(num, generic) (!(g_called == (num) && c == 'N'))
+#elif defined(CFG_inf)
+#define OPTION_WORD_COVERS(num) COVER(g_called == (num) && c == 'I'); COVER(g_called == (num) && c == 'i'); COVER(g_called == (num) && c == '-'); COVER(g_called == (num) && c == '+')
+#define CANARY_DISPATCH(num, generic) (!(g_called == (num) && c == 'I'))
+#else
+#define OPTION_WORD_COVERS(num) ((void)0)
+#define CANARY_DISPATCH(num, generic) (!(generic))
+#endif
 
 void h_parseVariant(void) {
   JD *d = mk();
@@ -115,6 +131,7 @@ void h_parseVariant(void) {
   COVER(g_called == C_PARSE_ARRAY); COVER(g_called == C_SKIP_ARRAY); COVER(g_called == C_PARSE_OBJECT); COVER(g_called == C_SKIP_OBJECT);
   COVER(g_called == C_PARSE_STRING); COVER(g_called == C_SKIP_STRING); COVER(g_called == C_KEYWORD && c == 't'); COVER(g_called == C_PARSE_NUM); COVER(g_called == C_SKIP_NUM);
   COVER(!g_spaces_ok);
+  OPTION_WORD_COVERS(C_PARSE_NUM);
   CHECK(err <= TooDeep, "C03: one of the six documented codes");
   if (!g_spaces_ok) {
     CHECK(g_ncalls == 0 && err != Ok && err != TooDeep && v.type_ == 0, "whitespace-only / ended input: nothing is parsed or stored, Empty/Incomplete is returned");
@@ -145,7 +162,7 @@ void h_parseVariant(void) {
   if (g_called == C_SKIP_ARRAY || g_called == C_SKIP_OBJECT || g_called == C_SKIP_STRING || g_called == C_SKIP_NUM)
     CHECK(v.type_ == 0, "C11: a kept value whose kind the filter does not admit stays null");
 #ifdef CANARY_PARSEVARIANT
-  CHECK(!(g_called == C_KEYWORD && c == 'f' && g_allowValue), "canary: deliberately false for a reachable case");
+  CHECK(CANARY_DISPATCH(C_PARSE_NUM, g_called == C_KEYWORD && c == 'f' && g_allowValue), "canary: deliberately false for a reachable case");
 #endif
 }
 
@@ -156,6 +173,7 @@ void h_skipVariant(void) {
   unsigned err = JsonDeserializer_StubReader__skipVariant(d, nl);
   char c = g_first;
   COVER(g_called == C_SKIP_ARRAY); COVER(g_called == C_SKIP_OBJECT); COVER(g_called == C_SKIP_STRING); COVER(g_called == C_KEYWORD); COVER(g_called == C_SKIP_NUM); COVER(!g_spaces_ok);
+  OPTION_WORD_COVERS(C_SKIP_NUM);
   CHECK(err <= TooDeep, "C03: one of the six documented codes");
   if (!g_spaces_ok) { CHECK(g_ncalls == 0 && err != Ok, "ended input: nothing runs"); return; }
   CHECK(g_ncalls == 1 && err == g_callee_err, "exactly one production runs and its result is returned unchanged");
@@ -164,6 +182,6 @@ void h_skipVariant(void) {
   CHECK(g_called == want, "C10/C15: discarded parts go through the skip productions (which enforce the same nesting rule)");
   if (g_called == C_SKIP_ARRAY || g_called == C_SKIP_OBJECT) CHECK(g_limit_seen == limit, "C15: same-level dispatch passes the nesting limit unchanged");
 #ifdef CANARY_SKIPVARIANT
-  CHECK(!(g_called == C_SKIP_OBJECT), "canary: deliberately false for a reachable case");
+  CHECK(CANARY_DISPATCH(C_SKIP_NUM, g_called == C_SKIP_OBJECT), "canary: deliberately false for a reachable case");
 #endif
 }
